@@ -19,7 +19,7 @@ func init() { register("CacoBuild", genCacoBuild) }
 
 type tok struct{ k, v string }
 
-func (p *pkg) skeleton(fd *ast.FuncDecl) []tok {
+func (p *pkg) cacoSkeleton(fd *ast.FuncDecl) []tok {
 	var out []tok
 	var walk func(st ast.Stmt)
 	block := func(b *ast.BlockStmt) {
@@ -214,8 +214,8 @@ func genCacoBuild(repo string) (string, error) {
 		}
 	}
 	fmt.Fprintf(&b, "Definition gen_max_errs : nat := %s.\n\n", maxErrs)
-	emitSkeleton(&b, "errorlist_add", lx.skeleton(lx.funcDecl("ErrorList", "Add")))
-	emitSkeleton(&b, "errorlist_errs", lx.skeleton(lx.funcDecl("ErrorList", "Errs")))
+	emitSkeleton(&b, "errorlist_add", lx.cacoSkeleton(lx.funcDecl("ErrorList", "Add")))
+	emitSkeleton(&b, "errorlist_errs", lx.cacoSkeleton(lx.funcDecl("ErrorList", "Errs")))
 
 	// struct layouts
 	for _, s := range []string{"buildAction", "fileStat", "built", "buildCacheEntry", "buildRuleMeta",
@@ -261,7 +261,7 @@ func genCacoBuild(repo string) (string, error) {
 		{"buildContext", "nodeType", "ctx_nodeType"},
 		{"buildContext", "ruleType", "ctx_ruleType"},
 	} {
-		emitSkeleton(&b, f.as, p.skeleton(p.funcDecl(f.recv, f.name)))
+		emitSkeleton(&b, f.as, p.cacoSkeleton(p.funcDecl(f.recv, f.name)))
 	}
 	return b.String(), nil
 }
